@@ -511,3 +511,45 @@ Lemma first_index_refuted_gen :
     forall deflate crc32 lvl p,
       patch_pos PatchFirstIndex true (raw_member deflate crc32 lvl h p) = Some 4.
 Proof. exists mtime_24342. split; [apply mtime_24342_ok|]. intros. apply first_index_hits_mtime. Qed.
+
+(** ---- the 64 KiB boundary of writeBlock, for every header and block ------- *)
+Ltac Zify.zify_post_hook ::= Z.div_mod_to_equations.
+
+(** Whatever writeBlock emits fits: at most MaxBlockSize bytes, BC subfield at
+    12, BSIZE = length - 1.  Holds for every codec, level, header and block;
+    hinges on the size check `size >= MaxBlockSize` that gen/ finds in the
+    source (bgzf_wr_overflow_check) and on the regenerated MaxBlockSize. *)
+Lemma emitted_member_fits_gen deflate crc32 lvl h p m :
+  write_block deflate crc32 bgzf_wr_patch_mode bgzf_wr_patch_guard bgzf_wr_overflow_check lvl h [] p = Ok m ->
+  zlen m <= bgzf_MaxBlockSize /\ zlen m <= 65536
+  /\ firstn 4 (skipn 12 m) = [66; 67; 2; 0]
+  /\ getz m 16 + 256 * getz m 17 = zlen m - 1.
+Proof.
+  destruct (hdr_err h) eqn:He; [unfold write_block; rewrite He; discriminate|].
+  rewrite (write_block_spec deflate crc32 _ _ _ lvl h p gen_patch_at_12 He). cbv zeta.
+  unfold bgzf_wr_overflow_check. cbn [andb].
+  set (size := zlen (raw_member deflate crc32 lvl h p) - 1).
+  destruct (bgzf_MaxBlockSize <=? size) eqn:E; [discriminate|]. apply Z.leb_gt in E.
+  intros H. injection H as <-.
+  destruct (member_bs_fields deflate crc32 lvl h (size mod 256) ((size / 256) mod 256) p) as (F1 & F2 & F3).
+  rewrite F2, F3. rewrite zlen_member_bs.
+  assert (Hsz : size = hdr_len h + zlen (deflate lvl p) + 8 - 1) by (unfold size; rewrite zlen_raw_member; lia).
+  assert (0 <= size).
+  { rewrite Hsz. unfold hdr_len. pose proof (zlen_nonneg (h_extra h)). pose proof (zlen_nonneg (zstr (h_name h))).
+    pose proof (zlen_nonneg (zstr (h_comment h))). pose proof (zlen_nonneg (deflate lvl p)). lia. }
+  unfold bgzf_MaxBlockSize in *. repeat split; try assumption; lia.
+Qed.
+
+(** A member that would be longer than MaxBlockSize is refused with
+    ErrBlockOverflow (header legal for compress/gzip, any size). *)
+Lemma oversize_member_refused_gen deflate crc32 lvl h p :
+  hdr_err h = false ->
+  bgzf_MaxBlockSize < zlen (raw_member deflate crc32 lvl h p) ->
+  write_block deflate crc32 bgzf_wr_patch_mode bgzf_wr_patch_guard bgzf_wr_overflow_check lvl h [] p = Err 5.
+Proof.
+  intros He Hbig. rewrite (write_block_spec deflate crc32 _ _ _ lvl h p gen_patch_at_12 He). cbv zeta.
+  unfold bgzf_wr_overflow_check. cbn [andb].
+  replace (bgzf_MaxBlockSize <=? zlen (raw_member deflate crc32 lvl h p) - 1) with true
+    by (symmetry; apply Z.leb_le; lia).
+  reflexivity.
+Qed.
